@@ -1,6 +1,7 @@
 package main
 
 import (
+	"strings"
 	"context"
 	"fmt"
 	"io"
@@ -20,6 +21,32 @@ import (
 func init() { runners["C10"] = runC10 }
 
 type userKey struct{ n int }
+
+// the six application keys are of six different Go types, the common idioms for context keys
+type strKey string
+
+var (
+	intKeyVar  int
+	strKeyVar  string
+	structKeyV struct{ _ byte }
+)
+
+func keyOf(n int) interface{} {
+	switch n {
+	case 0:
+		return userKey{0} // a value of a private struct type
+	case 1:
+		return &intKeyVar // the address of a package-level int
+	case 2:
+		return strKey("k2") // a private string type
+	case 3:
+		return 3 // a plain int
+	case 4:
+		return &strKeyVar // the address of a string
+	default:
+		return &structKeyV // the address of a struct
+	}
+}
 type otherPeerAddr struct{}
 
 func (otherPeerAddr) Network() string { return "other" }
@@ -129,7 +156,7 @@ func runC10(o *hx.Out, r *hx.Rand, thorough bool) {
 			n, v := r.Intn(6), int64(r.Range(1, 99))
 			e.layer = fmt.Sprintf("(LVal %d %d)", n, v)
 			e.apply = func(c context.Context) (context.Context, context.CancelFunc) {
-				return context.WithValue(c, userKey{n}, v), nil
+				return context.WithValue(c, keyOf(n), v), nil
 			}
 		case 3, 4:
 			md := metadata.MD{}
@@ -213,8 +240,8 @@ func runC10(o *hx.Out, r *hx.Rand, thorough bool) {
 		lastOutMD = nil
 		var creds map[string]string
 		credLayer := ""
-		if r.Chance(30) {
-			creds = []map[string]string{{}, {"cred": "tok"}, {"k1": "from-cred", "cred": "tok"}, {"k2": "c", "k1": "c"}}[r.Intn(4)]
+		if r.Chance(45) {
+			creds = []map[string]string{{}, {"cred": "tok"}, {"k1": "from-cred", "cred": "tok"}, {"k2": "c", "k1": "c"}, {"K": "Upper", "Auth": "T"}, {"Trace": "u2", "k": "lower"}, {"AUTH": "A"}}[r.Intn(7)]
 		}
 		withCtx(e, func(callerCtx context.Context) {
 			// mutation probe material: the caller's own outgoing metadata object (not a copy of it)
@@ -233,6 +260,7 @@ func runC10(o *hx.Out, r *hx.Rand, thorough bool) {
 					merged = own.Copy()
 				}
 				for k, v := range creds {
+					k = strings.ToLower(k) // metadata keys are case-insensitive; gRPC lower-cases them
 					merged[k] = append(merged[k], v)
 				}
 				credLayer = "LOutMD " + mdTerm(merged)
@@ -240,7 +268,7 @@ func runC10(o *hx.Out, r *hx.Rand, thorough bool) {
 			callWith(callerCtx, method, stream, func(hctx context.Context) {
 				ran = true
 				for k := 0; k < 6; k++ {
-					if v, ok := hctx.Value(userKey{k}).(int64); ok {
+					if v, ok := hctx.Value(keyOf(k)).(int64); ok {
 						s.user = append(s.user, fmt.Sprintf("(Some %d)", v))
 					} else {
 						s.user = append(s.user, "None")
@@ -277,7 +305,7 @@ func runC10(o *hx.Out, r *hx.Rand, thorough bool) {
 				for k := 0; k < 6; k++ {
 					v, ok := int64(0), false
 					if cc != nil {
-						v, ok = cc.Value(userKey{k}).(int64)
+						v, ok = cc.Value(keyOf(k)).(int64)
 					}
 					if ok {
 						s.cuser = append(s.cuser, fmt.Sprintf("(Some %d)", v))
